@@ -213,6 +213,8 @@ class Ref:
                 if any(outs[0] in op2["inputs"] for op2 in self.sg["operators"]):
                     raise Unsupported("%s feeding another operator" % k)
                 val[outs[0]] = self.table_op(k, ins[0], outs[0], o, val)
+            elif k == "PRELU":
+                val[outs[0]] = self.prelu(ins, outs[0], val)
             elif k in ("RELU", "RELU6"):
                 t = self.tens(outs[0])
                 (sc,), (zp,) = [x[:1] for x in self.quant(outs[0])]
@@ -224,6 +226,29 @@ class Ref:
             else:
                 raise Unsupported(k)
         return {i: val[i] for i in self.sg["outputs"]}
+
+    def prelu(self, ins, out_idx, val):
+        """reference_ops::BroadcastPrelu4DSlow (8-bit; the 16-bit kernel of reference_integer_ops has the same arithmetic)"""
+        ty = self.tens(out_idx)["type"]
+        alpha = self.const(ins[1])
+        if ty not in QRANGE or self.tens(ins[0])["type"] != ty or alpha is None:
+            raise Unsupported("PRELU type / dynamic alpha")
+        (si,), (zi,) = [x[:1] for x in self.quant(ins[0])]
+        (sa,), (za,) = [x[:1] for x in self.quant(ins[1])]
+        (so,), (zo,) = [x[:1] for x in self.quant(out_idx)]
+        m1, s1 = quantize_multiplier(float(np.float32(si)) / float(np.float32(so)))
+        m2, s2 = quantize_multiplier(float(np.float32(si)) * float(np.float32(sa)) / float(np.float32(so)))
+        x = val[ins[0]].astype(np.int64)
+        a = np.broadcast_to(np.asarray(alpha).astype(np.int64), x.shape).reshape(-1)
+        if len(set(a.tolist())) == 1:
+            self.has_table_op = True         # one slope: compiled as LEAKY_RELU, which may be table based (one step allowed)
+        lo, hi = QRANGE[ty]
+        res = []
+        for v, av in zip(x.reshape(-1), a):
+            iv = int(v) - int(zi)
+            r = mbqm(iv, m1, s1) if iv >= 0 else mbqm(iv * (int(av) - int(za)), m2, s2)
+            res.append(min(hi, max(lo, r + int(zo))))
+        return np.array(res, dtype=np.int64).reshape(x.shape)
 
     def table_op(self, k, in_idx, out_idx, o, val):
         """the real function applied to the dequantised 8-bit input, requantised with round-half-away (the reference kernels
